@@ -14,11 +14,12 @@ import Midgard.Model.WriterSta
   c17 tmscols <field,…>                       existing TIMESERIES/DATA columns for dataset fields
   c17 tmshdr <col,…>                          the `* _NAME__` line
   c17 tmsdata <col,…> <epoch|epoch…>          epoch = <int>@env
+  c17 tmsrange <col,…> <epoch|epoch…>         the range predicate of `tms_data_block_roundtrip` → 1 | 0
   c17 blocks <0|1> <0|1> <0|1>                markers of the blocks written + balanced flag
   c17 csv <fmt,…> <row|row…>                  fmt = s | d | f<prec>;  row = <hexdate>@value;value…
   c17 crdfile <hextext,…> <0|1> <stations>    the whole file (header texts: solution, stamp, datum, epoch) → hex | err
   c17 crdrange <hextext,…> <0|1> <stations>   the range predicate of `crd_file_roundtrip` → 1 | 0
-  c17 velfile <hextext,…> <0|1> <stations>    (solution, stamp, datum)
+  c17 velfile <hextext,…> <0|1> <stations>    (solution, stamp, datum);  c17 velrange … the range predicate of `vel_file_roundtrip`
   c17 clufile <hextext,…> <hexkey,…>          (solution, stamp)
   c17 clurange <hextext,…> <hexkey,…>         the range predicate of `clu_file_roundtrip` → 1 | 0
   c17 starecords <0|1> <hist> <hist> <hist>   TYPE 002 records for skip_firmware, receiver / antenna / eccentricity histories
@@ -159,6 +160,11 @@ def handle : List String → Option String
     let nan ← parseBool? nan
     let sts ← parseList? parseStation? sts
     pure (showBool (crdInRange ts nan sts))
+  | ["c17", "velrange", texts, nan, sts] => do
+    let ts ← parseTexts? texts
+    let nan ← parseBool? nan
+    let sts ← parseList? parseStation? sts
+    pure (showBool (velInRange ts nan sts))
   | ["c17", "velfile", texts, nan, sts] => do
     let ts ← parseTexts? texts
     let nan ← parseBool? nan
@@ -214,6 +220,10 @@ def handle : List String → Option String
     let cs ← parseList? some cols
     let es ← if eps = "[]" then some [] else (eps.splitOn "|").mapM parseEpoch?
     pure (showLines (tmsData cs es))
+  | ["c17", "tmsrange", cols, eps] => do
+    let cs ← parseList? some cols
+    let es ← if eps = "[]" then some [] else (eps.splitOn "|").mapM parseEpoch?
+    pure (showBool (tmsRowsInRange cs (es.map (·.2))))
   | ["c17", "blocks", a, b, c] => do
     let a ← parseBool? a; let b ← parseBool? b; let c ← parseBool? c
     let m := tmsMarkers (tmsBlocks a b c)
